@@ -226,10 +226,11 @@ class Hypervolume(Indicator):
         feasible = [s for s in set if s.constraint_violation == 0.0]
         normalize(feasible, self.minimum, self.maximum)
 
-        # exclude solutions worse than the nadir point in any objective
+        # exclude solutions worse than the nadir point in any objective; a solution listed twice counts once
         directions = set[0].problem.directions if len(feasible) > 0 else []
         feasible = [s for s in feasible if all([o <= 1.0 if directions[i] == Direction.MINIMIZE else o >= 0.0
                                                 for i, o in enumerate(s.normalized_objectives)])]
+        feasible = list({id(s): s for s in feasible}.values())
 
         if len(feasible) == 0:
             return 0.0
